@@ -95,6 +95,19 @@ RecordStep(x, w, t0, t1) ==
   IN [x EXCEPT !.last = n, !.arr = arr2, !.lo = lo2, !.end = ne, !.fresh = FALSE,
                !.pend = IF has \/ tooOld THEN pend1 ELSE pend1 \cup {n}]
 
+\* A run of n <= HMAX consecutive numbers w, w+1, ... recorded on a FRESH recorder with arrival times t, t+dt, ...: the closed
+\* form of n RecordSteps (nothing is culled - nothing has been reported - and nothing is trimmed - the run fits the
+\* history).  One trace event stands for the whole run, so that a full 2^15 history costs TLC one step instead of 2^15
+\* function copies.  MC_TwccRecRun checks RecRun = RecIter for every small run at the real constants.
+RecRun(w, n, t, dt) ==
+  [Fresh0 EXCEPT !.last = w + n - 1,
+                 !.arr = [m \in w .. (w + n - 1) |-> <<t + (m - w) * dt, t + (m - w) * dt>>],
+                 !.lo = w, !.end = w + n, !.fresh = FALSE, !.pend = w .. (w + n - 1)]
+RECURSIVE RecIterFrom(_, _, _, _, _, _)
+RecIterFrom(x, w, i, n, t, dt) ==
+  IF i = n THEN x ELSE RecIterFrom(RecordStep(x, (w + i) % M, t + i * dt, t + i * dt), w, i + 1, n, t, dt)
+RecIter(w, n, t, dt) == RecIterFrom(Fresh0, w, 0, n, t, dt)
+
 \* deviation-predicate style helpers (state, action)
 Dropped(x, w) == x.last >= 0 /\ LET n == TrueNum(x, w) IN n < x.end /\ x.end - n > HMAX
 
